@@ -179,9 +179,13 @@ def locate_slice(labels, kind, start, stop, step):
         for b in (start, stop):
             if b is not None and not is_num(b):
                 raise Unspecified("non-numeric bound on numeric axis")
-        if d is None:   # length 0 or 1: direction undefined, either reading is acceptable
+        if d is None:
+            # length 0 or 1: the direction of the axis is undefined.  With lo <= hi (or an open bound) and a forward step the statement is
+            # unambiguous whatever the direction - the label is selected iff lo <= label <= hi - which is the increasing reading; only for
+            # lo > hi or a negative step does the answer depend on the direction, and then either reading is accepted
+            forward = (start is None or stop is None or start <= stop) and (step is None or step > 0)
             alts = [_slice_bbox(labels, start, stop, step, 1), _slice_bbox(labels, start, stop, step, -1)]
-            return [alts[0]] if alts[0] == alts[1] else alts
+            return [alts[0]] if (forward or alts[0] == alts[1]) else alts
         if d != 0:
             return [_slice_bbox(labels, start, stop, step, d)]
     return [_slice_strict(labels, start, stop, step)]
